@@ -1295,3 +1295,59 @@ M("c14_reclaim_only_non_dummy", ["C14"], ["C14.R1"], [
         }
     }""")])
 
+# ---------------------------------------------------------------- rules added in the second session (section 8b)
+M("c01_is_last_down_masks_ptr", ["C01"], ["C01.R3"], [
+    ("src/allocator_impl.rs", """        ptr == bump.chunk.get().pos()
+    }
+}""", """        down_align_usize(ptr.addr().get(), S::MIN_ALIGN) == bump.chunk.get().pos().addr().get()
+    }
+}""")])
+M("c13_grow_room_measured_from_pos", ["C13"], ["C13.R3"], [
+    ("src/allocator_impl.rs", """                let remaining = chunk_end.addr().get() - old_ptr.addr().get();
+
+                if new_layout.size() <= remaining {""", """                let remaining = chunk_end.addr().get() - chunk.pos().addr().get();
+
+                if new_layout.size() <= remaining {""")])
+M("neg_c13_grow_room_other_algebra", ["C13"], [], [
+    ("src/allocator_impl.rs", """                let remaining = chunk_end.addr().get() - old_ptr.addr().get();
+
+                if new_layout.size() <= remaining {""", """                if old_ptr.addr().get() + new_layout.size() <= chunk_end.addr().get() {""")], negative=True)
+M("c05_size_step_header_align_only_when_up", ["C05", "C12"], ["C05.R6", "C12.R4"], [
+    ("src/chunk/size_config.rs", """        let size_step = max(ASSUMED_PAGE_SIZE, chunk_header_layout.align());""",
+     """        let size_step = if self.up { max(ASSUMED_PAGE_SIZE, chunk_header_layout.align()) } else { ASSUMED_PAGE_SIZE };""")])
+M("c07_mut_string_write_str_panics", ["C07"], ["C07.R2"], [
+    ("src/mut_bump_string.rs", """    fn write_str(&mut self, s: &str) -> fmt::Result {
+        self.try_push_str(s).map_err(|_| fmt::Error)
+    }""", """    fn write_str(&mut self, s: &str) -> fmt::Result {
+        self.push_str(s);
+        Ok(())
+    }""")])
+M("c07_bump_down_wrapping_sub", ["C07"], ["C07.R7"], [
+    ("src/lib.rs", """    let subtracted = addr.get().saturating_sub(size);""", """    let subtracted = addr.get().wrapping_sub(size);""")])
+M("c18_align_guard_remembers_position_owner", ["C18"], ["C18.R2"], [
+    ("src/bump_align_guard.rs", """    pub(crate) scope: &'b mut BumpScope<'a, A, S>,
+}""", """    pub(crate) scope: &'b mut BumpScope<'a, A, S>,
+    first: crate::raw_bump::RawChunk<A, S>,
+}"""),
+    ("src/bump_align_guard.rs", """        if let Some(chunk) = self.scope.raw.chunk.get().as_non_dummy() {""", """        if let Some(chunk) = self.first.as_non_dummy() {"""),
+    ("src/bump_align_guard.rs", """        Self { scope }""", """        let first = scope.raw.chunk.get();
+        Self { scope, first }""")])
+M("c04_without_shrink_scope_for_any_B", ["C04"], ["C04.R5", "C04.W"], [
+    ("src/traits/bump_allocator_core_scope.rs", """unsafe impl<'a, B: BumpAllocatorCoreScope<'a>> BumpAllocatorCoreScope<'a> for WithoutShrink<B> {}""",
+     """unsafe impl<'a, B: BumpAllocatorCore> BumpAllocatorCoreScope<'a> for WithoutShrink<B> {}""")])
+M("c15_direction_query_before_prepare_rev", ["C15", "C17"], ["C15.R5", "C17.R6"], [
+    ("src/traits/bump_allocator_typed.rs", """        let Ok(range) = bump.prepare_allocation_rev(layout) else {""", """        let up = is_upwards_allocating(&bump);
+        let Ok(range) = bump.prepare_allocation_rev(layout) else {"""),
+    ("src/traits/bump_allocator_typed.rs", """        let ptr = if is_upwards_allocating(&bump) {
+            unsafe { range.start.cast::<T>().add(cap) }""", """        let ptr = if up {
+            unsafe { range.start.cast::<T>().add(cap) }""")])
+M("c06_rev_extend_from_within_len_after_loop", ["C06"], ["C06.R6"], [
+    ("src/mut_bump_vec_rev.rs", """                dst.write((*src).clone());
+
+                self.len += 1;
+            }
+        }""", """                dst.write((*src).clone());
+            }
+
+            self.len += count;
+        }""")])
